@@ -184,8 +184,11 @@ func parseFromClause(fields []string) (string, string, error) {
 }
 
 func parseSelectColumns(raw string, lower string) ([]SelectColumn, error) {
-	selectIdx := keywordIndex(lower, "select")
-	fromIdx := keywordIndex(lower, "from")
+	// keywordIndex matches case-insensitively, so search the text that is sliced:
+	// byte offsets found in strings.ToLower(raw) are not valid for raw when a rune
+	// (or an invalid byte) changes its UTF-8 length when lower-cased.
+	selectIdx := keywordIndex(raw, "select")
+	fromIdx := keywordIndex(raw, "from")
 	if selectIdx == -1 || fromIdx == -1 || fromIdx <= selectIdx {
 		return nil, fmt.Errorf("select requires from <topic>")
 	}
@@ -325,25 +328,23 @@ func parseLimitToken(lower string) string {
 }
 
 func parseGroupBy(raw string, lower string) []string {
-	groupIdx := keywordIndex(lower, "group by")
+	groupIdx := keywordIndex(raw, "group by")
 	if groupIdx == -1 {
 		return nil
 	}
 	rest := raw[groupIdx+len("group by"):]
-	restLower := lower[groupIdx+len("group by"):]
-	end := clauseEnd(restLower, []string{"order by", "limit", "last", "tail", "within", "scan"})
+	end := clauseEnd(rest, []string{"order by", "limit", "last", "tail", "within", "scan"})
 	list := strings.TrimSpace(rest[:end])
 	return splitIdentifiers(list)
 }
 
 func parseOrderBy(raw string, lower string) string {
-	orderIdx := keywordIndex(lower, "order by")
+	orderIdx := keywordIndex(raw, "order by")
 	if orderIdx == -1 {
 		return ""
 	}
 	rest := raw[orderIdx+len("order by"):]
-	restLower := lower[orderIdx+len("order by"):]
-	end := clauseEnd(restLower, []string{"limit", "last", "tail", "within", "scan", "group by"})
+	end := clauseEnd(rest, []string{"limit", "last", "tail", "within", "scan", "group by"})
 	list := strings.TrimSpace(rest[:end])
 	fields := strings.Fields(strings.ToLower(list))
 	if len(fields) == 0 {
@@ -353,14 +354,13 @@ func parseOrderBy(raw string, lower string) string {
 }
 
 func parseOrderDesc(raw string, lower string) bool {
-	orderIdx := keywordIndex(lower, "order by")
+	orderIdx := keywordIndex(raw, "order by")
 	if orderIdx == -1 {
 		return false
 	}
 	rest := raw[orderIdx+len("order by"):]
-	restLower := strings.ToLower(rest)
-	end := clauseEnd(restLower, []string{"limit", "last", "tail", "within", "scan", "group by"})
-	fields := strings.Fields(restLower[:end])
+	end := clauseEnd(rest, []string{"limit", "last", "tail", "within", "scan", "group by"})
+	fields := strings.Fields(strings.ToLower(rest[:end]))
 	if len(fields) < 2 {
 		return false
 	}
@@ -637,11 +637,11 @@ func splitIdentifiers(raw string) []string {
 }
 
 func parseJoinCondition(raw string, lower string, topic string, alias string, joinTopic string, joinAlias string) (*JoinCondition, error) {
-	joinIdx := keywordIndex(lower, "join")
+	joinIdx := keywordIndex(raw, "join")
 	if joinIdx == -1 {
 		return nil, nil
 	}
-	onIdx := keywordIndex(lower[joinIdx:], "on")
+	onIdx := keywordIndex(raw[joinIdx:], "on")
 	if onIdx == -1 {
 		return &JoinCondition{
 			Left:  JoinExpr{Kind: JoinExprKey, Side: "left"},
@@ -650,8 +650,7 @@ func parseJoinCondition(raw string, lower string, topic string, alias string, jo
 	}
 	onIdx += joinIdx
 	rest := raw[onIdx+len("on"):]
-	restLower := lower[onIdx+len("on"):]
-	end := clauseEnd(restLower, []string{"within", "last", "tail", "limit", "where", "group by", "order by", "scan"})
+	end := clauseEnd(rest, []string{"within", "last", "tail", "limit", "where", "group by", "order by", "scan"})
 	expr := strings.TrimSpace(rest[:end])
 	parts := strings.Split(expr, "=")
 	if len(parts) != 2 {
